@@ -1060,7 +1060,16 @@ class ContentDocument(Document):
     if region.get_doc() != self:
       raise ValueError("Region does not belongs to this document")
 
+    replaced_region = self._regions.get(region.get_id())
+
     self._regions[region.get_id()] = region
+
+    # content elements that reference the region that was replaced now reference the new one
+
+    if replaced_region is not None and replaced_region is not region and self.get_body() is not None:
+      for e in self.get_body().dfs_iterator():
+        if e.get_region() is replaced_region:
+          e.set_region(region)
 
   def remove_region(self, region_id: str):
     '''Removes the region with `id == region_id` from the document and all content elements.'''
